@@ -411,6 +411,17 @@ struct Harness {
         if (op.uarg(1) & 1) { Sk cp(*s.sk); *s.sk = cp; }                               // copy construct + copy assign
         else { Sk tmp(std::move(*s.sk)); s.sk.reset(new Sk(std::move(tmp))); }           // move construct twice
         f.copy = true;
+      } else if (op.name == "ser") {
+        // the sketch is replaced by what its serialized image decodes to, given the same kernel object (every later estimate is still
+        // compared with the model's kernel). Not for a state with a trailing empty level: the image cannot express it (open finding,
+        // keyed in C09/C11) and the k * levels bound of the restored sketch would differ.
+        std::string t(s.sk->to_string(true, false).c_str());
+        size_t e = t.rfind("### End sketch levels"), l = e == std::string::npos ? e : t.rfind(": ", e);
+        const bool trailing_empty = s.sk->is_estimation_mode() && l != std::string::npos && std::atoi(t.c_str() + l + 2) == 0;
+        if (trailing_empty || s.n == 0) continue;
+        if (op.uarg(1) & 1) { std::stringstream ss(std::ios::in | std::ios::out | std::ios::binary); s.sk->serialize(ss); s.sk.reset(new Sk(Sk::deserialize(ss, s.kern))); }
+        else { auto b = s.sk->serialize(); s.sk.reset(new Sk(Sk::deserialize(b.data(), b.size(), s.kern))); }
+        vf::label("round-trip");
       } else if (op.name == "query") {
         Pt q;
         vf::Rng r(op.uarg(2));
@@ -522,6 +533,7 @@ rc::Gen<Case> gen_main() {
       {2, op4("bulk", slot, range(1, 40), patgen(), sd)},
       {2, op3("wrong", slot, range(-3, 3), sd)},
       {5, op3("merge", slot, slot, range(0, 3))},
+      {2, op2("ser", slot, range(0, 1))},
       {1, op3("merge", slot, pick({4}), range(0, 3))},
       {1, op3("alien", pick({0}), range(0, 39), sd)},
       {1, op2("copy", slot, range(0, 1))},
